@@ -630,6 +630,38 @@ def judge_init_unreadable_settings(rec, rnd, tmp, k, log):
     shutil.rmtree(root, ignore_errors=True)
 
 
+def judge_output_location_blocked(rec, tmp, k, log):
+    """The output location cannot be created (a FILE called `output` is in the way - `tally up --summary > output` once - or a component of a nested output_dir is
+    a file): whatever `tally up` does then, it writes no report files anywhere else in the budget."""
+    root = os.path.join(tmp, 'ob%d' % k)
+    os.makedirs(os.path.join(root, 'config'))
+    os.makedirs(os.path.join(root, 'data'))
+    nested = k % 2 == 1
+    with open(os.path.join(root, 'config', 'settings.yaml'), 'w') as f:
+        f.write('year: 2025\nmerchants_file: config/merchants.rules\n' + ('output_dir: reports/2025\n' if nested else '') +
+                'data_sources:\n  - name: Card\n    file: data/card.csv\n    format: "{date:%Y-%m-%d},{description},{amount}"\n')
+    with open(os.path.join(root, 'config', 'merchants.rules'), 'w') as f:
+        f.write('[Netflix]\nmatch: contains("NETFLIX")\ncategory: Subs\n')
+    with open(os.path.join(root, 'data', 'card.csv'), 'w') as f:
+        f.write('Date,Description,Amount\n2025-01-03,NETFLIX.COM,15.99\n')
+    with open(os.path.join(root, 'reports' if nested else 'output'), 'w') as f:
+        f.write('a summary somebody redirected here\n')
+    before = snapshot(root)
+    args = [['up', '-q'], ['up', os.path.join(root, 'config'), '--no-embedded-html', '-q'], ['up']][k % 3]
+    p, effects = run_cmd(root, root, args, log)
+    after = snapshot(root)
+    rec.case()
+    rec.count('commands_run')
+    rec.count('runs_with_the_output_location_blocked')
+    case = {'kind': 'output-blocked', 'command': args, 'exit': p.returncode, 'nested': nested}
+    new = sorted(x for x in after if x not in before)
+    changed = sorted(x for x in before if after.get(x) != before[x])
+    if new or changed:
+        rec.violation('report-files-written-outside-the-output-location', f'a file is in the way of the output folder ({"reports/2025" if nested else "output"}): tally {" ".join(args[:1] + args[-1:])} '
+                      f'(exit {p.returncode}) created {new[:5]} and changed {changed[:3]} in the budget', case)
+    shutil.rmtree(root, ignore_errors=True)
+
+
 def run(rec, shard, nshards, t):
     core.import_tally()
     rnd = core.rng_for('C20', shard)
@@ -649,6 +681,7 @@ def run(rec, shard, nshards, t):
             judge_same_process_sequence(rec, rnd, tmp, k)
         for k in range(shard, len(BROKEN_SETTINGS) * (1 if t == 'quick' else 3), nshards):
             judge_init_unreadable_settings(rec, rnd, tmp, k, log)
+            judge_output_location_blocked(rec, tmp, k, log)
         if shard == 0:
             rec.sample({'example_sequence': ['up', 'discover --format json', 'init', 'up --migrate -q'], 'monitors': ['sha256 tree snapshot', 'audit-hook effect log']})
     finally:
@@ -671,6 +704,7 @@ def replay(rec, case):
             judge_symlinked_rules_csv(rec, rnd, tmp, k, log)
             judge_same_process_sequence(rec, rnd, tmp, k)
             judge_init_unreadable_settings(rec, rnd, tmp, k, log)
+            judge_output_location_blocked(rec, tmp, k, log)
     finally:
         shutil.rmtree(tmp, ignore_errors=True)
         if os.path.exists(log):
